@@ -8,7 +8,7 @@ use xeh::prelude::*;
 
 pub const DEF: PropDef = PropDef {
     id: "C03",
-    rule: "histories of <=40 (quick) / <=150 (thorough) operations over a forest of up to 6 live interpreter states: Eval(i, src), CompileStep(i, src, a forward steps, b backward steps, run), Clone(i), SetInput(i, bytes), Record(i, on/off), Drop(i), CatchUp(j, n). \
+    rule: "histories of <=40 (quick) / <=150 (thorough) operations over a forest of up to 6 live interpreter states: Eval(i, src), CompileStep(i, src, a forward steps, b backward steps, run), Clone(i), CloneFrom(i, j) (Clone::clone_from into a live state), SetInput(i, bytes), Record(i, on/off), Drop(i), CatchUp(j, n). \
 Sources come from a pool built to share and then mutate: bit-strings held in variables, on the stack and as the open input that are appended to / inverted / sliced / emitted / packed, vector push, map insert/remove, variable stores, let, definitions and redefinitions, late words resolved on one copy only, recording on one copy only, failing sources, plus control-flow programs from the C01 generator. \
 Oracle 1 (isolation): before each operation the rendering of every live state is held (complete dump by content, variables, pending stdout); after an operation on state i every other state must render byte-identically. \
 Oracle 2 (determinism): every clone first follows its original: each operation later applied to the original is queued for the clone together with the original's result and rendering, and is applied to the clone at a generated later time, interleaved with other activity; result, dump, variables and stdout must match at every position. Clones of clones follow the same way. \
@@ -199,7 +199,7 @@ pub fn case(ch: &mut Choices, ctx: &CaseCtx) -> CaseOut {
                 continue;
             }
         } else {
-            ch.weighted(&[14, 3, 2, 4, 1, if states.len() > 1 { 1 } else { 0 }])
+            ch.weighted(&[14, 3, 2, 4, 1, if states.len() > 1 { 1 } else { 0 }, if states.len() > 1 { 2 } else { 0 }])
         };
         if kind == 100 {
             // catch up: apply queued operations and compare with what the original did
@@ -260,6 +260,43 @@ pub fn case(ch: &mut Choices, ctx: &CaseCtx) -> CaseOut {
         if kind == 5 {
             log.push(format!("drop state {}", states[i].id));
             states.remove(i);
+            continue;
+        }
+        if kind == 6 {
+            // overwrite state i with a copy of state j through Clone::clone_from (what a rollback into an
+            // existing state does): i then follows j like a fresh clone
+            let j = ch.below(states.len());
+            if j == i || !states[j].queue.is_empty() {
+                continue;
+            }
+            let snaps: Vec<String> = states.iter_mut().map(|s| rendering(&mut s.xs)).collect();
+            let src = states[j].xs.clone();
+            log.push(format!("state {} .clone_from(state {})", states[i].id, states[j].id));
+            // (clone_from on the live value, fed from a plain copy so that the borrow is simple)
+            states[i].xs.clone_from(&src);
+            drop(src);
+            let lead = states[j].id;
+            states[i].leader = Some(lead);
+            states[i].queue.clear();
+            // a state restored from j must render exactly like j
+            let (ri, rj) = (rendering(&mut states[i].xs), rendering(&mut states[j].xs));
+            if ri != rj {
+                let d = first_diff_line(&ri, &rj);
+                fail = Some((format!("isolation: clone_from does not produce an exact copy ({})", section_of(&d)), d));
+                break 'ops;
+            }
+            if let Some(f) = check_isolation(&mut states, i, &snaps) {
+                fail = Some(f);
+                break 'ops;
+            }
+            // followers of the overwritten state stop following it
+            let me = states[i].id;
+            for s in states.iter_mut() {
+                if s.leader == Some(me) {
+                    s.leader = None;
+                    s.queue.clear();
+                }
+            }
             continue;
         }
         // a free operation: the state stops following its original
